@@ -39,6 +39,9 @@ POOL = [
     ("str", 'k = "abc"'), ("str", 'k = ""'), ("str", "k = \"a'b\""), ("str", 'k = "héllo ✓ \U0001F600"'),
     ("str", 'k = "two\nlines"'), ("str", 'k = "// not a comment"'),
     ("stresc", "k = 'a\"b'"), ("stresc", 'k = "a\\b"'), ("stresc", "k = 'say \"hi\"' + \" it's\""),
+    # both quote kinds with a double quote at the start, at the end, doubled, and alone with a single quote
+    ("stresc", "k = \"it's \" + '\"q\"'"), ("stresc", "k = '\"' + \"'\""), ("stresc", "k = '\"\"' + \"'\" + '\"'"),
+    ("stresc", "k = \"'\" + '\"lead'"), ("stresc", "k = {[\"'\" + '\"k\"']: 1}"),
     ("stresc", "k = [\"x\\\\\", 1]"), ("stresc", "k = {'q\"': 1}"), ("stresc", 'k = {"a\\b": 2}'),
     ("list", "k = [1, 2, 3]"), ("list", "k = []"), ("list", 'k = [1, -2, [3, "x"], {a: null}]'),
     ("list", "k = [-1, -0, 1e300 * 1e10]"),
